@@ -18,6 +18,8 @@ string of n characters of a fixed pattern, ``{"i": n}`` an n-digit int, scalars 
   B2 flat dicts: the same with the sweep in a value or in a key (one-line window only; a dict has no
      per-line packing)
   B3 lists of m copies of a short pattern, m swept so that both thresholds are crossed by *count*
+  S  every scalar of a list of special values (floats needing 17 digits, huge ints, signed zeros, strings
+     that look like syntax) alone, as the only list element, as a dict value and as a dict key
   B4 very long flat containers (one-line form 450..1300 characters): must come out wrapped
 
 Oracle (from the statement): the no-color text and the joined line iteration both parse (json.loads
@@ -68,7 +70,7 @@ REQUIRED_FEATURES = [
     "thr200:199", "thr200:200", "thr200:201", "thr150:149", "thr150:150", "thr150:151",
     "sweep:list-element", "sweep:dict-value", "sweep:dict-key", "sweep:count",
     "elem:longer-than-line", "out:one-line", "out:multi-line", "out:list-on-several-lines",
-    "out:line-with-several-elements", "long:must-wrap",
+    "out:line-with-several-elements", "long:must-wrap", "scalar:special",
 ]
 
 PAT = "ab, c: [d] {e} #f = g; é "
@@ -192,6 +194,59 @@ def _json_reject(name):
     raise ValueError("constant " + name)
 
 
+_TOKEN_RE = None
+
+
+def diagnose(text, mode):
+    """Coarse reason why a text is not a JSON / Python literal (used in signatures only)."""
+    global _TOKEN_RE
+    import re
+    if _TOKEN_RE is None:
+        _TOKEN_RE = re.compile(r'\s+|("[^"\n]*")|(-?\d[\w.+-]*)|([A-Za-z_]\w*)|([\[\]{},:])|(.)')
+    words = {"json": {"true", "false", "null"}, "py": {"True", "False", "None"}}[mode]
+    prev = None        # 'v' value end, 'o' opener, ',' comma, ':' colon
+    depth = 0
+    for m in _TOKEN_RE.finditer(text):
+        s_, n_, w_, p_, x_ = m.groups()
+        if m.group(0).isspace():
+            continue
+        if x_ is not None:
+            return "stray-character"
+        if w_ is not None and w_ not in words:
+            return "foreign-literal"
+        if p_ in ("]", "}"):
+            depth -= 1
+            if depth < 0:
+                return "unbalanced"
+            if prev == ",":
+                return "dangling-comma"
+            if prev == ":":
+                return "missing-value"
+            prev = "v"
+            continue
+        if p_ == ",":
+            if prev in (",", "o", ":", None):
+                return "comma-without-value"
+            prev = ","
+            continue
+        if p_ == ":":
+            if prev != "v":
+                return "colon-without-key"
+            prev = ":"
+            continue
+        # a value starts here (string, number, literal, opener)
+        if prev == "v":
+            return "missing-comma"
+        if p_ in ("[", "{"):
+            depth += 1
+            prev = "o"
+        else:
+            prev = "v"
+    if depth != 0:
+        return "unbalanced"
+    return "other"
+
+
 def parse_text(text, mode):
     """-> (value, key_lists, dup) ; key_lists = textual key order of every dict; dup = a repeated key or None."""
     key_lists = []
@@ -287,18 +342,20 @@ def judge(obj, mode, text, want=None):
     try:
         value, key_lists, dup = parse_text(text, mode)
     except _Unparseable as e:
-        return ("unparseable:" + shape_class(obj), f"{mode} output does not parse: {e}", text, repr(obj)[:400])
+        return ("unparseable:" + diagnose(text, mode) + ":" + shape_class(obj),
+                f"{mode} output does not parse: {e}", text, repr(obj)[:400])
     want = want or canon(obj)
     got = canon(value)
     if got != want:
-        return ("value-differs:" + diff_class(want, got) + ":" + shape_class(obj),
+        why = diagnose(text, mode)
+        return ("value-differs:" + (diff_class(want, got) if why == "other" else why) + ":" + shape_class(obj),
                 f"{mode} output parses to a different value", text, repr(obj)[:400])
     if dup is not None:
         return ("duplicate-key", "a dict key occurs twice in the text", text, repr(dup))
     for keys in key_lists:
         if not keys_sorted(keys):
-            kinds = "int" if all(isinstance(k, int) for k in keys) else (
-                "str" if all(isinstance(k, str) for k in keys) else "mixed")
+            ints = [k for k in keys if isinstance(k, int) and not isinstance(k, bool)]
+            kinds = "int" if ints != sorted(ints) else "str"
             return ("keys-unsorted:" + kinds, "dict entries are not in sorted key order", keys,
                     "ints ascending, strings ascending")
     limit = WRAP_SLACK + longest_entry(obj) + 2 * depth_of(obj) + 2
@@ -362,7 +419,12 @@ def _params(tier):
     }
 
 
-COUNT_PATTERNS = [[7], [None], ["ab"], [7, None], [True, "x", 2.5], [[], {"D": []}], [12345678, -3]]
+COUNT_PATTERNS = [[7], [None], ["ab"], [7, None], [True, "x", 2.5], [[], {"D": []}], [12345678, -3],
+                  [0.30000000000000004, 1e+22, -1e-07, 0, -0.0, 12345678901234567890, "", " x ", False]]
+SCALARS = [0, 1, -1, 7, 12345678901234567890, -98765432109876543210, 0.0, -0.0, 2.5, -2.5, 0.1, 1 / 3,
+           0.30000000000000004, 1e+22, 1.5e+300, -1e-07, 5e-324, 123456789.125, True, False, None,
+           "", "a", "é", " lead", "trail ", "a, b", "[1, 2]", "{x: 1}", "null", "None", "1", "#", "a: b",
+           [], {"D": []}, {"s": 197}, {"s": 198}, {"s": 300}]
 LONG_CASES = [("L", 7, 150), ("L", 7, 400), ("L", "ab", 120), ("L", None, 260), ("L", {"s": 30}, 20),
               ("D", 7, 60), ("D", {"s": 30}, 15), ("D", None, 100)]
 
@@ -376,7 +438,7 @@ def bounds(tier):
                "one_line_window": p["win200"], "per_line_window": p["win150"], "sweep_kinds": p["sweep_kinds"]},
         "B2": {"max_entries": p["Kdict"], "value_alphabet": p["Edict"], "sweep": ["value", "key"]},
         "B3": {"patterns": COUNT_PATTERNS, "copies": [1, p["count_max"]]},
-        "B4": LONG_CASES,
+        "B4": LONG_CASES, "S": SCALARS,
         "contexts(offset=2*len)": ["".join(c) or "top" for c in p["ctx"]],
         "modes": ["json", "python"],
     }
@@ -484,6 +546,7 @@ def shards(tier):
             sh.append(("B2", c, what))
         sh.append(("B3", c))
     sh.append(("B4",))
+    sh.append(("S",))
     return sh
 
 
@@ -713,6 +776,23 @@ def _run_B4(p, acc):
                 _one(acc, spec, mode, feats, nontrivial_hint=True)
 
 
+def _run_S(p, acc):
+    for sc in SCALARS:
+        forms = [sc, [sc], [1, sc, None], {"D": [["k", sc]]}, {"D": [["k", sc], ["a", [sc, [sc]]]]}]
+        for spec in forms:
+            feats = set()
+            _leaf_features(build(spec), feats)
+            feats.add("scalar:special")
+            for mode in ("json", "py"):
+                _one(acc, spec, mode, feats, sample=False)
+        # as a dict key: strings in both modes, ints in Python mode
+        if isinstance(sc, str) or (isinstance(sc, dict) and "s" in sc):
+            for mode in ("json", "py"):
+                _one(acc, {"D": [["zz", 1], [build(sc), 2]]}, mode, {"scalar:special", "keys:str"})
+        elif isinstance(sc, int) and not isinstance(sc, bool):
+            _one(acc, {"D": [["zz", 1], [sc, 2], [5, 3]]}, "py", {"scalar:special", "keys:int+str"})
+
+
 def run_shard(shard, tier, seed, acc):
     p = _params(tier)
     fam = shard[0]
@@ -726,6 +806,8 @@ def run_shard(shard, tier, seed, acc):
         return _run_B3(shard, p, acc)
     if fam == "B4":
         return _run_B4(p, acc)
+    if fam == "S":
+        return _run_S(p, acc)
     raise ValueError(shard)
 
 
@@ -756,7 +838,10 @@ def selftest():
     assert judge({2: 1, 10: 2}, "py", '{10: 2, 2: 1}')[0] == "keys-unsorted:int"
     assert judge({"a": 1}, "json", '{"a": 1, "a": 1}')[0] == "duplicate-key"
     assert judge({"a": 1}, "py", '{"a": 1, "a": 1}')[0] == "duplicate-key"
-    assert judge([None], "json", "[None]")[0].startswith("unparseable")
-    assert judge([1, 2], "py", "[1,\n, 2]")[0].startswith("unparseable")
+    assert judge([None], "json", "[None]")[0].startswith("unparseable:foreign-literal")
+    assert judge([1, 2], "py", "[1,\n, 2]")[0].startswith("unparseable:comma-without-value")
+    assert judge([1, 2], "json", "[1\n 2]")[0].startswith("unparseable:missing-comma")
+    assert judge([1, {"a": 2}], "json", '[1, {"a": 2},]')[0].startswith("unparseable:dangling-comma")
+    assert judge([1, 2], "json", "[1, 2")[0].startswith("unparseable:unbalanced")
     assert judge([7] * 300, "json", json.dumps([7] * 300))[0].startswith("not-wrapped")
     assert rlen(["ab", None, {"k": 1}, []]) == len('["ab", None, {"k": 1}, []]')
